@@ -127,6 +127,7 @@ func (w *World) RunConnWorld() {
 
 func (w *World) teardown() {
 	w.TearingDown = true
+	w.watchTeardown()
 	w.TeardownSeq = simrt.Seq()
 	if os.Getenv("VERIF_DEBUG") == "3" {
 		fmt.Fprintln(os.Stderr, "---- stacks at teardown ----")
